@@ -356,6 +356,7 @@ package model
 //@   ensures[C04] addressed-protected-fails: (exists i int :: 0 <= i && i < len(A) && addressed(A[i]) && blocked(remoteWrite, A[i])) ==> !result1
 //@   ensures[C04] unaddressed-do-not-fail: (forall i int :: 0 <= i && i < len(A) && addressed(A[i]) ==> !blocked(remoteWrite, A[i])) ==> result1
 //@   ensures[C11,C04] inputs-untouched: (forall i int :: 0 <= i && i < len(A) ==> A[i] == old(A[i])) && (forall j int :: 0 <= j && j < len(B) ==> B[j] == old(B[j]))
+//@   ensures[C11,C02,C04] fresh-result: result0 == nil || fresh(result0)
 //@   modifies nothing
 //@   loop 0 invariant acc: (result == nil || freshPre(result)) && len(result) == $k && $s == A
 //@   loop 0 invariant m2: m2 != nil && (forall k string :: has(m2, k) <==> (exists j int :: 0 <= j && j < len(B) && hkey(B[j]) == k)) && (forall k string :: has(m2, k) ==> exists j int :: 0 <= j && j < len(B) && hkey(B[j]) == k && m2[k] == B[j])
